@@ -144,3 +144,84 @@ def decode_word(w, length, table):
     for i in range(ln):
         out.append(table[pick(w[i], len(table))])
     return out
+
+
+# ----------------------------------------------------------------------------------------
+# context-free grammars
+
+VARS = ["S", "A", "B"]
+TERMS = ["a", "b", "c"]
+
+
+def cfg_stride(b):
+    return 2 + b
+
+
+def decode_cfg(t, p_used, v, nt, b):
+    """t: flat tuple, per production (head, body_len, s_0 .. s_{b-1}); codes < v are variables,
+    v <= code < v+nt terminals. Returns [(head_idx, [codes])]."""
+    stride = cfg_stride(b)
+    maxp = len(t) // stride
+    p = pick(p_used, maxp + 1)
+    prods = []
+    for i in range(p):
+        base = i * stride
+        h = pick(t[base], v)
+        ln = pick(t[base + 1], b + 1)
+        body = [pick(t[base + 2 + j], v + nt) for j in range(ln)]
+        prods.append((h, body))
+    return prods
+
+
+def cfg_canonical(t, p_used, v, nt, b):
+    """Precondition: ranges; unused slots zero; used productions strictly increasing (a set, one order)."""
+    stride = cfg_stride(b)
+    maxp = len(t) // stride
+    ok = True
+    for i in range(maxp):
+        base = i * stride
+        used = i < p_used
+        ok = ok and 0 <= t[base] < v and 0 <= t[base + 1] <= b
+        for j in range(b):
+            ok = ok and 0 <= t[base + 2 + j] < v + nt
+            ok = ok and (j < t[base + 1] or t[base + 2 + j] == 0)
+        if not used:
+            ok = ok and t[base] == 0 and t[base + 1] == 0
+        if i + 1 < maxp and (i + 1) < p_used:
+            ok = ok and lex_less(t[base:base + stride], t[base + stride:base + 2 * stride])
+    return ok
+
+
+def lex_less(a, b):
+    """Strict lexicographic order of two equal-length tuples of (symbolic) ints."""
+    res = False
+    for i in range(len(a) - 1, -1, -1):
+        res = (a[i] < b[i]) or (a[i] == b[i] and res)
+    return res
+
+
+def cfg_symbol(code, v, vars_=VARS, terms=TERMS):
+    from vlib.oracles import cfg as OC
+    return OC.V(vars_[code]) if code < v else OC.T(terms[code - v])
+
+
+def ref_cfg(prods, v, start="S", vars_=VARS, terms=TERMS):
+    from vlib.oracles import cfg as OC
+    return OC.G(start, [(vars_[h], tuple(cfg_symbol(c, v, vars_, terms) for c in body))
+                        for h, body in prods])
+
+
+def build_cfg(prods, v, start="S", vars_=VARS, terms=TERMS, order=None, as_list=False):
+    from pyformlang.cfg import CFG, Variable, Terminal, Production
+    ps = []
+    for h, body in prods:
+        objs = [Variable(vars_[c]) if c < v else Terminal(terms[c - v]) for c in body]
+        ps.append(Production(Variable(vars_[h]), objs))
+    if order is not None:
+        ps = apply_order(ps, order)
+    if not as_list:
+        coll = set()
+        for p in ps:
+            coll.add(p)
+        ps = coll
+    return CFG(start_symbol=Variable(start) if start is not None else None, productions=ps)
